@@ -239,7 +239,7 @@ func c03Remove(r *Run, fn *ssa.Function) {
 		if d == "-1" {
 			continue
 		}
-		if !glob("(1 + it@*)", d) {
+		if !glob("it@*", d) {
 			okIdx = false
 		}
 		matchIdx = d
@@ -458,7 +458,7 @@ func c03Build(r *Run, fn *ssa.Function) {
 	// AKI decision table
 	var keyAtKey, issKey string
 	for k, ci := range r.D.AtomsOf(fn) {
-		if ci.Kind == "ord" && ci.A == "0" && glob("phi((1 + it@*)|-1)", ci.B) {
+		if ci.Kind == "ord" && ci.A == "0" && glob("phi(-1|it@*)", ci.B) {
 			keyAtKey = k
 		}
 		if ci.Kind == "nil" && glob("nil?phi(new:x509/pkix.Extension#*.Value|nil)", k) {
@@ -478,7 +478,7 @@ func c03Build(r *Run, fn *ssa.Function) {
 			continue
 		}
 		for _, st := range r.StoresTo(fn, r.D.allocName(a)) {
-			if glob("p1.Extensions[(1 + it@*)]", r.D.D(st.Val)) && strings.Contains(issVal, r.D.allocName(a)+".Value") {
+			if glob("p1.Extensions[it@*]", r.D.D(st.Val)) && strings.Contains(issVal, r.D.allocName(a)+".Value") {
 				okSrc = true
 			}
 		}
@@ -513,7 +513,7 @@ func c03Build(r *Run, fn *ssa.Function) {
 			}
 			d := r.D.D(st.Addr)
 			switch {
-			case glob("&("+tbs+".Extensions[phi((1 + it@*)|-1)].Value)", d):
+			case glob("&("+tbs+".Extensions[phi(-1|it@*)].Value)", d):
 				got.inplace = r.D.D(st.Val) == issVal
 				detail = append(detail, "ext[keyAt].Value ← "+r.D.D(st.Val))
 			case d == "&("+tbs+".Extensions)":
@@ -618,12 +618,12 @@ func c03CreateLeaf(r *Run) {
 		if len(eq) == 1 {
 			a0, a1 := r.D.D(CallArgs(eq[0])[0]), r.D.D(CallArgs(eq[0])[1])
 			elem := func(v ssa.Value) bool {
-				if glob("p0.SCTList.SCTList[(1 + it@*)].Val", r.D.D(v)) {
+				if glob("p0.SCTList.SCTList[it@*].Val", r.D.D(v)) {
 					return true
 				}
 				if a := baseAlloc(v); a != nil && strings.HasSuffix(r.D.D(v), ".Val") {
 					for _, st := range r.StoresTo(c, r.D.allocName(a)) {
-						if glob("p0.SCTList.SCTList[(1 + it@*)]", r.D.D(st.Val)) {
+						if glob("p0.SCTList.SCTList[it@*]", r.D.D(st.Val)) {
 							return true
 						}
 					}
@@ -649,7 +649,7 @@ func c03SCTList(r *Run) {
 				r.Check("writer:list-type", a != nil && TypeName(a.Type().(*types.Pointer).Elem()) == "x509.SignedCertificateTimestampList", r.Where(ret), "builds a x509.SignedCertificateTimestampList")
 			}
 		}
-		r.ExpectStores(fn, "writer:element", "&(new:x509.SerializedSCT#0.Val)", "tls.Marshal(*p0[(1 + it@*)])#0", 1)
+		r.ExpectStores(fn, "writer:element", "&(new:x509.SerializedSCT#0.Val)", "tls.Marshal(*p0[it@*])#0", 1)
 		r.ErrorsGate(fn, "writer:errors", "tls.Marshal", 1)
 	}
 	if fn := r.Fn("submission.ASN1MarshalSCTs"); fn != nil {
